@@ -158,6 +158,18 @@ RATE_VEC_OPS = {
 }
 
 
+def db_after_ledger(P, chk):
+    """PriceDB rates replace ledger-derived ones only if they arrive later: process() must load the price DB after the ledger"""
+    b = P.body("okane_core::report::book_keeping::process")
+    chk.analysed(b)
+    loads = [(bb, t) for bb, t in b.calls() if (callee_def(t) or "").endswith("Loader::load")]
+    dbs = [(bb, t) for bb, t in b.calls() if (callee_def(t) or "").endswith("load_price_db")]
+    ok = len(loads) == 1 and len(dbs) == 1 and b.must_pass_block(dbs[0][0], loads[0][0])
+    chk.require(ok, R_SRC if "R_SRC" in globals() else R_SORT, "process|price DB loaded after the ledger", b.loc(dbs[0][0]) if dbs else b.loc(),
+                "load_price_db is not preceded on every path by loader.load: ledger-derived rates inserted afterwards are appended to the "
+                "DB-sourced entry instead of being replaced by it", "loader.load(..)?; then load_price_db(..)?")
+
+
 def rate_records_kept(P, chk):
     """no recorded (date, rate) is ever dropped, merged or rewritten: only reviewed operations touch a rate vector"""
     n = 0
@@ -447,6 +459,7 @@ def run(P, chk, tier):
     as_of(P, chk)
     sorted_before_lookup(P, chk)
     rate_records_kept(P, chk)
+    db_after_ledger(P, chk)
     source_precedence(P, chk)
     distance_order(P, chk)
     convert_single(P, chk)
